@@ -380,6 +380,14 @@ pub fn record(a: &Args) -> Report {
       let mut long1 = vec![0u8; perm.len()];
       long1[1] = 2;
       sels.push((perm.clone(), long1));
+      // the FIRST share alone is the short one (with one-element secrets it then has no y at all)
+      let mut first = vec![0u8; perm.len()];
+      first[0] = 1;
+      sels.push((perm.clone(), first.clone()));
+      if perm.len() >= 3 {
+        first[1] = 1;                      // the first two
+        sels.push((perm.clone(), first));
+      }
       if perm.len() >= 3 {
         let mut comp = vec![0u8; perm.len()];
         comp[1] = 1;
